@@ -149,11 +149,7 @@ theorem eintr_prefix_transparent (iovmax k : Nat) (os : List Outcome) (off : Int
   have h2 := (eintr_transparent iovmax os off bufs).1
   have : (List.replicate k (Outcome.fail EINTR) ++ os).filter notEintr = os.filter notEintr := by
     rw [List.filter_append]
-    have : (List.replicate k (Outcome.fail EINTR)).filter notEintr = [] := by
-      induction k with
-      | zero => rfl
-      | succ k ih => rw [List.replicate_succ, List.filter_cons, if_neg (by simp)]; exact ih
-    rw [this, List.nil_append]
+    rw [filter_replicate_eintr, List.nil_append]
   rw [this] at h1
   rw [← h1, h2]
 
@@ -182,21 +178,23 @@ theorem read_count_exact (iovmax : Nat) (hi : 0 < iovmax) (off : Int) (bufs : Li
     cases bufs with
     | nil => exact absurd rfl hb
     | cons b r => simp; omega
-  unfold fsRead
   cases hs : readSys off (bufs.take iovmax).length with
   | none =>
     exfalso
     unfold readSys at hs
     split at hs <;> split at hs <;> (try split at hs) <;> (try cases hs) <;> omega
   | some sys =>
-    rw [List.length_take] at hs
+    have hs' := hs
+    rw [List.length_take] at hs'
     cases o with
     | ok n =>
-      refine ⟨⟨sys, rfl, hs.symm⟩, ?_⟩
+      rw [fsRead_ok _ _ _ _ _ _ hs]
+      refine ⟨⟨sys, rfl, hs'.symm⟩, ?_⟩
       simp only [RRes.result, mapResult]
       split <;> omega
     | fail e =>
-      refine ⟨⟨sys, rfl, hs.symm⟩, ?_⟩
+      rw [fsRead_fail _ _ _ _ _ _ hs]
+      refine ⟨⟨sys, rfl, hs'.symm⟩, ?_⟩
       simp [RRes.result, mapResult]
 
 /-- **read_fills_in_order.**  With the kernel's readv semantics (`scatter`, assumed) and an answer `n`
@@ -209,10 +207,10 @@ theorem read_fills_in_order (iovmax : Nat) (off : Int) (bufs : List (List α)) (
     (fsRead iovmax off bufs (.ok n) src).bufs.flatten = src.take n ++ bufs.flatten.drop n ∧
     (fsRead iovmax off bufs (.ok n) src).bufs.map List.length = bufs.map List.length ∧
     (fsRead iovmax off bufs (.ok n) src).bufs.drop iovmax = bufs.drop iovmax := by
-  unfold fsRead
   cases h : readSys off (bufs.take iovmax).length with
   | none => exact absurd h hs
   | some sys =>
+    rw [fsRead_ok _ _ _ _ _ _ h]
     have hl : (src.take n).length = n := by rw [List.length_take]; omega
     have hsl : (scatter (bufs.take iovmax) (src.take n)).length = (bufs.take iovmax).length := by
       have := congrArg List.length (scatter_lengths (bufs.take iovmax) (src.take n))
@@ -237,5 +235,69 @@ example :
 example :
     let r := fsRead 1024 (-1) [[0, 0], [0, 0, 0]] (.ok 4) [7, 8, 9, 10, 11]
     r.result = 4 ∧ r.bufs = [[7, 8], [9, 10, 0]] ∧ r.calls.map (·.sys) = [.readv] := by decide +kernel
+
+/-! ## (b) route choice and result mapping (decision tables) -/
+
+/-- the enumeration used below really is every operation, each once -/
+theorem op_all_complete (op : Op) : op ∈ Op.all := by cases op <;> decide
+theorem op_all_nodup : Op.all.Nodup := by decide +kernel
+
+/-- **route_exhaustive.**  Under every configuration every operation takes exactly one route, and which
+    one is characterised completely: synchronous iff no callback; io_uring iff callback, the front end has
+    a submitter whose own precondition holds, and `uv__iou_get_sqe` hands out an SQE; thread pool in every
+    other case with a callback. -/
+theorem route_exhaustive (c : Cfg) (op : Op) :
+    (route c op = .sync ↔ c.hasCb = false) ∧
+    (route c op = .uring ↔ c.hasCb = true ∧ uringPrecond c op = some true ∧ ringOk c = true) ∧
+    (route c op = .pool ↔ c.hasCb = true ∧ ¬(uringPrecond c op = some true ∧ ringOk c = true)) := by
+  unfold route
+  cases hcb : c.hasCb <;> simp
+  · cases hp : uringPrecond c op with
+    | none => simp
+    | some b => cases b <;> cases hr : ringOk c <;> simp
+
+/-- io_uring is never used without the SQPOLL loop option, the positive environment variable, a
+    kernel ≥ 5.10.186 and a successfully created ring -/
+theorem uring_needs_sqpoll (c : Cfg) (op : Op) (h : route c op = .uring) :
+    c.sqpollFlag = true ∧ c.envPositive = true ∧ c.ringInitOk = true ∧ c.kernel ≥ 0x050ABA ∧ c.sqeFree = true := by
+  have := ((route_exhaustive c op).2.1.1 h).2.2
+  simp only [ringOk, Bool.and_eq_true, decide_eq_true_eq] at this
+  obtain ⟨⟨⟨⟨a, b⟩, c'⟩, d⟩, e⟩ := this
+  exact ⟨a, c', d, b, e⟩
+
+/-- exactly these 15 operations can go to io_uring at all (on a new enough kernel with a usable ring) -/
+theorem uring_ops :
+    Op.all.filter (fun op => route ⟨true, true, true, true, true, 0x061200, true⟩ op == .uring)
+      = [.close, .fdatasync, .fstat, .fsync, .ftruncate, .lstat, .link, .mkdir, .open, .read, .rename,
+         .stat, .symlink, .unlink, .write] := by decide +kernel
+
+/-- the two range checks of `uv__iou_fs_close` (linux.c:845-849) as written amount to "kernel ≥ 6.1.0"
+    (the second bound is 0x050A00 = 5.10.0 although its comment says 5.16.0) -/
+theorem close_uring_iff (c : Cfg) : uringPrecond c .close = some true ↔ c.kernel ≥ 0x060100 := by
+  simp [uringPrecond]; omega
+
+/-- a write with more than IOV_MAX buffers never goes to io_uring (it needs the chunking loop of
+    `uv__fs_write_all`); a read does (it is capped, like `uv__fs_read`) -/
+theorem big_write_not_uring (c : Cfg) (h : c.nbufsLeIovmax = false) : route c .write ≠ .uring := by
+  intro hr
+  have := ((route_exhaustive c .write).2.1.1 hr).2.1
+  simp [uringPrecond, h] at this
+
+/-- completion: only `-EOPNOTSUPP` (-95) is re-posted to the thread pool -/
+theorem fallback_iff (r : Int) : completeRoute r = .pool ↔ r = -95 := by
+  unfold completeRoute; split <;> simp [*]
+
+/-- **result_mapping** (fs.c:1750-1759): `-1` becomes `-errno`, anything else is passed through;
+    `req->ptr = &req->statbuf` exactly for a successful stat/fstat/lstat -/
+theorem result_mapping (r : Int) (errno : Nat) (op : Op) :
+    (r = -1 → mapResult r errno = -(errno : Int)) ∧ (r ≠ -1 → mapResult r errno = r) ∧
+    (setsStatPtr op r = true ↔ r = 0 ∧ (op = .stat ∨ op = .fstat ∨ op = .lstat)) := by
+  refine ⟨fun h => by simp [mapResult, h], fun h => by simp [mapResult, h], ?_⟩
+  cases op <;> simp [setsStatPtr]
+
+example : route ⟨true, true, true, true, true, 0x061200, true⟩ .mkdir = .uring := by decide +kernel
+example : route ⟨true, true, true, true, true, 0x050E00, true⟩ .mkdir = .pool := by decide +kernel
+example : route ⟨false, true, true, true, true, 0x061200, true⟩ .mkdir = .sync := by decide +kernel
+example : route ⟨true, false, true, true, true, 0x061200, true⟩ .read = .pool := by decide +kernel
 
 end UvModel.FsBuf
